@@ -10,20 +10,18 @@ Record ghost := mkG {
   g_sp : list iid;      (* wait-group tokens: one entry per ESpawn whose inst_exit release has not happened yet *)
   g_wp : list tid;      (* threads whose last event was inst_exit (waitGroup.Done() is next) *)
   g_tp : list tid;      (* threads whose last event was exit_trigger (exitCodeOnce.Do is next) *)
-  g_cs : bool;          (* some thread has moved on after its exit_trigger: the project exit code is fixed *)
-  g_badb : bool;        (* an instance goroutine began (EBegin) without a preceding ESpawn of that instance *)
-  g_badsd : bool }.     (* an API-requested shutdown took its snapshot after an exit_trigger, before the code was fixed *)
-#[export] Instance eta_ghost : Settable _ := settable! mkG <g_sp; g_wp; g_tp; g_cs; g_badb; g_badsd>.
+  g_badb : bool }.      (* an instance goroutine began (EBegin) without a preceding ESpawn of that instance *)
+#[export] Instance eta_ghost : Settable _ := settable! mkG <g_sp; g_wp; g_tp; g_badb>.
 
-Definition ghost0 := mkG [] [] [] false false false.
-Definition gbad (g : ghost) : bool := g_badb g || g_badsd g.
+Definition ghost0 := mkG [] [] [] false.
+Definition gbad (g : ghost) : bool := g_badb g.
 
 Definition gflush (o : obs) (th : tid) (g : ghost) : ghost :=
   let g1 := if memN th (g_wp g)
             then g <| g_wp := removeN th (g_wp g) |>
                    <| g_sp := match get th (o_th o) with Some i => rem1 i (g_sp g) | None => g_sp g end |>
             else g in
-  if memN th (g_tp g1) then g1 <| g_tp := removeN th (g_tp g1) |> <| g_cs := true |> else g1.
+  if memN th (g_tp g1) then g1 <| g_tp := removeN th (g_tp g1) |> else g1.
 
 Definition gcore (o : obs) (th : tid) (e : event) (g : ghost) : ghost :=
   match e with
@@ -31,9 +29,6 @@ Definition gcore (o : obs) (th : tid) (e : event) (g : ghost) : ghost :=
   | EBegin i => g <| g_badb := g_badb g || negb (memN i (g_sp g)) |>
   | EInstExit => g <| g_wp := th :: g_wp g |>
   | EExitTrigger _ => g <| g_tp := th :: g_tp g |>
-  | EShutdownOrder _ =>
-      g <| g_badsd := g_badsd g || ((match get th (o_th o) with None => true | Some _ => false end)
-                                    && (match o_triggers o with [] => false | _ => true end) && negb (g_cs g)) |>
   | _ => g
   end.
 
@@ -42,10 +37,7 @@ Definition gstep (o : obs) (g : ghost) (te : tid * event) : ghost := gcore o (fs
 Lemma gflush_bad o th g : gbad (gflush o th g) = gbad g.
 Proof. unfold gflush, gbad. destruct (memN th (g_wp g)); cbn; match goal with |- context[if ?b then _ else _] => destruct b end; reflexivity. Qed.
 Lemma gcore_bad_mono o th e g : gbad g = true -> gbad (gcore o th e g) = true.
-Proof.
-  unfold gbad. intros H. apply orb_true_iff in H. destruct e; cbn; try (apply orb_true_iff; exact H);
-    destruct H as [H|H]; rewrite H; cbn; rewrite ?orb_true_r; reflexivity.
-Qed.
+Proof. unfold gbad. intros H. destruct e; cbn; try exact H. rewrite H. reflexivity. Qed.
 Lemma gstep_bad_mono o g e : gbad g = true -> gbad (gstep o g e) = true.
 Proof. intros H. unfold gstep. apply gcore_bad_mono. now rewrite gflush_bad. Qed.
 
@@ -72,7 +64,8 @@ Record R4 (s : sys) (o : obs) (g : ghost) : Prop := mkR4 {
   r_wg : wg s = length (g_sp g);
   r_wp : forall th, memN th (g_wp g) = true <-> pk (pend (get_thread s th)) = PW;
   r_tp : forall th, memN th (g_tp g) = true <-> exists c, pk (pend (get_thread s th)) = PC c;
-  r_cs : g_cs g = code_set s;
+  r_fix : o_code_fixed o = true -> code_set s = true;
+  r_trth : forall th, memN th (o_trig_th o) = true -> code_set s = true \/ memN th (g_tp g) = true;
   r_inj : forall t1 t2 i, get t1 (thinst s) = Some i -> get t2 (thinst s) = Some i -> t1 = t2;
   r_thi : forall th i, get th (thinst s) = Some i -> exists x, get i (insts s) = Some x;
   r_own : forall th i x, get th (thinst s) = Some i -> get i (insts s) = Some x -> Pown s g th i x;
@@ -110,7 +103,6 @@ Lemma R4_frame s o g s0 g0 :
   wg s0 = length (g_sp g0) ->
   (forall th', memN th' (g_wp g0) = true <-> pk (pend (get_thread s0 th')) = PW) ->
   (forall th', memN th' (g_tp g0) = true <-> exists c, pk (pend (get_thread s0 th')) = PC c) ->
-  g_cs g0 = code_set s0 ->
   (forall th', memN th' (g_wp g0) = true -> memN th' (g_wp g) = true) ->
   (forall th', memN th' (g_tp g0) = true -> memN th' (g_tp g) = true) ->
   (forall th' i' x, get th' (thinst s) = Some i' -> get i' (insts s) = Some x ->
@@ -122,7 +114,7 @@ Lemma R4_frame s o g s0 g0 :
   (forall th' c, pk (pend (get_thread s0 th')) = PC c -> pk (pend (get_thread s th')) = PC c) ->
   R4 s0 o g0.
 Proof.
-  intros HR Hsame Hthi Hins Hthr Hcs Hwg Hwp Htp Hgcs Hwsub Htsub Hsp Htrig Hc0 Hc1 Hc2.
+  intros HR Hsame Hthi Hins Hthr Hcs Hwg Hwp Htp Hwsub Htsub Hsp Htrig Hc0 Hc1 Hc2.
   assert (Hback : forall j x', get j (insts s0) = Some x' ->
             exists x, get j (insts s) = Some x /\ pc x' = pc x /\ alive x' = alive x /\ exited x' = exited x).
   { intros j x' Hx'. specialize (Hins j). destruct (get j (insts s)) as [x|]; [|congruence].
@@ -134,7 +126,8 @@ Proof.
   - exact Hwg.
   - exact Hwp.
   - exact Htp.
-  - exact Hgcs.
+  - intros H. apply Hmono. now apply (r_fix _ _ _ HR).
+  - intros th H. destruct (r_trth _ _ _ HR th H) as [H1|H1]; [left; now apply Hmono|now apply Htrig].
   - rewrite Hthi. apply (r_inj _ _ _ HR).
   - rewrite Hthi. intros th i Ht. destruct (r_thi _ _ _ HR th i Ht) as (x & Hx). specialize (Hins i). rewrite Hx in Hins.
     destruct Hins as (x' & ? & _). eauto.
@@ -197,7 +190,6 @@ Proof.
     + intros th'. rewrite Hpk. destruct (N.eqb_spec th th').
       * subst. rewrite Ht. split; [discriminate|intros (c & H); discriminate].
       * apply (r_tp _ _ _ HR).
-    + rewrite F5. apply (r_cs _ _ _ HR).
     + intros th'. destruct (N.eqb_spec th' th); [subst; now rewrite memN_removeN_same|now rewrite memN_removeN_other].
     + auto.
     + intros th' i' x' Hti' Hx' Hc Hin'. apply rem1_other; [|exact Hin'].
@@ -211,7 +203,7 @@ Proof.
     assert (Ht : memN th (g_tp g) = true) by (apply (r_tp _ _ _ HR); eauto).
     assert (Hw : memN th (g_wp g) = false).
     { destruct (memN th (g_wp g)) eqn:E; [|reflexivity]. apply (r_wp _ _ _ HR) in E. congruence. }
-    assert (Hg0 : gflush o th g = g <| g_tp := removeN th (g_tp g) |> <| g_cs := true |>).
+    assert (Hg0 : gflush o th g = g <| g_tp := removeN th (g_tp g) |>).
     { unfold gflush. rewrite Hw. cbn -[memN removeN rem1]. now rewrite Ht. }
     rewrite Hg0. eapply R4_frame; try eassumption; cbn -[memN removeN rem1 length In get_thread flush pk get N.eqb].
     + apply sys_same_flush.
@@ -223,7 +215,6 @@ Proof.
     + intros th'. rewrite Hpk. destruct (N.eqb_spec th th').
       * subst. rewrite memN_removeN_same. split; [discriminate|intros (c' & H); discriminate].
       * rewrite memN_removeN_other by congruence. apply (r_tp _ _ _ HR).
-    + now rewrite F5.
     + auto.
     + intros th'. destruct (N.eqb_spec th' th); [subst; now rewrite memN_removeN_same|now rewrite memN_removeN_other].
     + auto.
@@ -249,7 +240,6 @@ Proof.
     + intros th'. rewrite Hpk. destruct (N.eqb_spec th th').
       * subst. rewrite Ht. split; [discriminate|intros (c' & H); discriminate].
       * apply (r_tp _ _ _ HR).
-    + rewrite F5. apply (r_cs _ _ _ HR).
     + auto.
     + auto.
     + auto.
@@ -360,7 +350,6 @@ Proof.
   { intros t. destruct e; cbn -[memN]; try (destruct (N.eqb t th); reflexivity). rewrite memN_cons. destruct (N.eqb t th); reflexivity. }
   assert (Gtp : forall t, memN t (g_tp (gcore o th e g)) = if N.eqb t th then (match e with EExitTrigger _ => true | _ => memN t (g_tp g) end) else memN t (g_tp g)).
   { intros t. destruct e; cbn -[memN]; try (destruct (N.eqb t th); reflexivity). rewrite memN_cons. destruct (N.eqb t th); reflexivity. }
-  assert (Gcs : g_cs (gcore o th e g) = g_cs g) by (destruct e; reflexivity).
   assert (Hpk' : forall t, pk (pend (get_thread s' t)) = if N.eqb t th then pk_next e else pk (pend (get_thread s t))).
   { intros t. destruct (N.eqb_spec t th); [subst; exact Tpk|now rewrite Sthr]. }
   assert (Otr : forall t, In t (o_triggers o) -> In t (o_triggers (obs_step cs o (th, e)))).
@@ -375,7 +364,21 @@ Proof.
     rewrite Hwf. destruct e; cbn; split; congruence.
   - intros t. rewrite Gtp, Hpk'. destruct (N.eqb_spec t th); [subst|apply (r_tp _ _ _ _ HR)].
     rewrite Htf. destruct e; cbn; split; try congruence; try (intros (z & Hz); congruence); eauto.
-  - rewrite Gcs, Scs. apply (r_cs _ _ _ _ HR).
+  - (* the observer's "code fixed" implies the model's *)
+    rewrite obs_fixed, Scs. intros Hf.
+    assert (Hor : o_code_fixed o = true \/ memN th (o_trig_th o) = true).
+    { destruct e; auto; apply orb_true_iff in Hf; exact Hf. }
+    destruct Hor as [Hor|Hor]; [now apply (r_fix _ _ _ _ HR)|].
+    destruct (r_trth _ _ _ _ HR th Hor) as [Hc|Hc]; [exact Hc|congruence].
+  - (* goroutines that logged an exit_trigger *)
+    intros t Ht. rewrite obs_trigth in Ht. rewrite Scs, Gtp. destruct (N.eqb_spec t th) as [Heq|Hne]; [subst t|].
+    + destruct (classic_trig e) as [(z & ->)|Hnt]; [now right|].
+      assert (Ht0 : memN th (o_trig_th o) = true) by (destruct e; auto; exfalso; eapply Hnt; reflexivity).
+      destruct (r_trth _ _ _ _ HR th Ht0) as [Hc|Hc]; [now left|congruence].
+    + assert (Ht0 : memN t (o_trig_th o) = true).
+      { destruct e; auto. destruct (get th (o_th o)); auto. rewrite memN_cons in Ht.
+        rewrite (proj2 (N.eqb_neq t th) Hne) in Ht. exact Ht. }
+      destruct (r_trth _ _ _ _ HR t Ht0) as [Hc|Hc]; auto.
   - (* thinst injective *)
     intros t1 t2 i H1 H2. destruct (Hthi' _ _ H1) as [A1|(A1 & B1 & C1)]; destruct (Hthi' _ _ H2) as [A2|(A2 & B2 & C2)].
     + eapply (r_inj _ _ _ _ HR); eauto.
@@ -398,8 +401,8 @@ Proof.
       assert (Eow : own (thinst s) th i = false) by (apply own_false_of; congruence). rewrite Eow in Ecl.
       assert (Et0 : get_thread s' th = thread0) by (subst s'; unfold get_thread; cbn; now rewrite Hthr0).
       unfold Pown. rewrite Et0. cbn [apc dpc thread0]. repeat split; try congruence.
-      - intros _. cbn. unfold gbad in Hbad. cbn in Hbad. apply orb_false_iff in Hbad. destruct Hbad as [Hb _].
-        apply orb_false_iff in Hb. destruct Hb as [_ Hb]. apply negb_false_iff in Hb. now apply memN_In.
+      - intros _. cbn. unfold gbad in Hbad. cbn in Hbad. apply orb_false_iff in Hbad. destruct Hbad as [_ Hb].
+        apply negb_false_iff in Hb. now apply memN_In.
       - intros Hc. exfalso. destruct (rc_inst _ _ _ HRc0 i x Hx) as (xo & Hxo & _).
         destruct (r_inst _ _ _ _ HR i x xo Hx Hxo) as (_ & _ & _ & D & _).
         destruct D as (t & Ht'); [congruence|]. eapply Hne; eauto. }
@@ -498,10 +501,7 @@ Proof.
         rewrite obs_api. destruct (get th (o_th o)) as [j|] eqn:Ej.
         -- left. rewrite <- Hoth in Ej. destruct (r_thi _ _ _ _ HR th j Ej) as (xj & Hxj).
            apply (r_own _ _ _ _ HR th j xj Ej Hxj). rewrite (g_sdorder _ _ _ _ H). discriminate.
-        -- destruct (o_triggers o) eqn:Etr; [right; now rewrite orb_true_r|].
-           left. rewrite <- (r_cs _ _ _ _ HR). unfold gbad in Hbad. cbn in Hbad. rewrite Ej, Etr in Hbad. cbn in Hbad.
-           apply orb_false_iff in Hbad. destruct Hbad as [_ Hb]. apply orb_false_iff in Hb. destruct Hb as [_ Hb].
-           now apply negb_false_iff in Hb.
+        -- destruct (o_code_fixed o) eqn:Efx; [left; now apply (r_fix _ _ _ _ HR)|right; now rewrite orb_true_r].
       * assert (Hv0 : o_insnap xo = true \/ o_sd_victim xo = true).
         { destruct e; try (exfalso; eapply Hns; reflexivity); cbn in Hv; rewrite ?orb_false_r in Hv; auto.
           destruct (N.eqb i0 i); destruct Hv; auto. }
@@ -597,7 +597,7 @@ Proof.
 Qed.
 
 
-(* ---- the statement without a side condition is false of the model ----------------------------------- *)
+(* ---- the statement without the side condition is false of the model ---------------------------------- *)
 Module C04Refute.
 Open Scope N_scope.
 (* (1) the model lets a goroutine begin for an instance that was never spawned (no waitGroup.Add): *)
@@ -608,7 +608,10 @@ Definition evs1 : list (tid * event) :=
   (1, ELaunch true); (0, EApiBegin OpRun); (0, ERunSpawned); (0, ERunReturn 0%Z)].
 (* (2) a shutdown requested through the API between the exit_trigger trace point of a failing
    exit_on_failure process (code 3) and its exitCodeOnce.Do: the victim of that shutdown (code 7) fixes
-   the project exit code first. *)
+   the project exit code first.  Under the first version of the observer (o_api_sd_first only when NO
+   exit_trigger had been logged) this history contradicted the monitor; with the widened o_api_sd_first
+   it is an API shutdown that came before the code was fixed, and the monitor accepts any trigger's code
+   (C04_api_shutdown_race_ok below). *)
 Definition cF := mkConf [] PExitOnFailure 0 0 false false false false false false false.
 Definition cs2 : amap pconf := [(0, cF); (1, cF)].
 Definition evs2 : list (tid * event) :=
@@ -644,7 +647,7 @@ End C04Refute.
 Definition accepted_hist (cs : amap pconf) (ord : bool) (evs : list (tid * event)) : bool :=
   match accept (init cs ord) evs with Some _ => true | None => false end.
 
-(* no early return / exit code are refuted, outside every known window, when the history is not disciplined *)
+(* "no early return" is refuted, outside every known window, when the history is not disciplined *)
 Lemma C04_refuted_nospawn_lemma :
   exists cs ord evs s, accept (init cs ord) evs = Some s /\ no_windows cs evs = true /\ holds_C04 cs evs = false.
 Proof.
@@ -652,14 +655,12 @@ Proof.
   destruct (accept (init C04Refute.cs1 false) C04Refute.evs1) as [s|] eqn:E; [|vm_compute in E; discriminate].
   exists s. split; [reflexivity|]. split; vm_compute; reflexivity.
 Qed.
-Lemma C04_refuted_code_lemma :
-  exists cs ord evs s, accept (init cs ord) evs = Some s /\ no_windows cs evs = true /\
-                       g_badb (ghost_of cs evs) = false /\ holds_C04 cs evs = false.
-Proof.
-  exists C04Refute.cs2, false, C04Refute.evs2.
-  destruct (accept (init C04Refute.cs2 false) C04Refute.evs2) as [s|] eqn:E; [|vm_compute in E; discriminate].
-  exists s. split; [reflexivity|]. repeat split; vm_compute; reflexivity.
-Qed.
+(* regression: with the widened o_api_sd_first (API snapshot before the project exit code was fixed) the
+   84-event history - formerly a counterexample to the exit-code clause - satisfies the monitor *)
+Lemma C04_api_shutdown_race_ok :
+  accepted_hist C04Refute.cs2 false C04Refute.evs2 = true /\ C04_disciplined C04Refute.cs2 C04Refute.evs2 = true /\
+  holds_C04 C04Refute.cs2 C04Refute.evs2 = true /\ o_api_sd_first (final_obs C04Refute.cs2 C04Refute.evs2) = true.
+Proof. repeat split; vm_compute; reflexivity. Qed.
 
 (* ---- the monitor unfolded: a position-quantified statement about the history ----------------------- *)
 Definition obs_at (cs : amap pconf) (evs : list (tid * event)) (k : nat) : obs :=
